@@ -262,3 +262,68 @@ Proof.
   intros W K. apply (except_known 1 (OpVariantToEnum size d p s) W).
   cbn [known_class]. change (1 <? 1) with false. cbn iota. rewrite K. reflexivity.
 Qed.
+
+(* ------------------- fix candidate C02-2 / C02-3: size-byte aggregate copies *)
+Definition footprint_sz (tag_width : N) (o : op) : list range :=
+  match o with
+  | OpCopy _ t s => write_all_sz t s
+  | OpVariantToEnum _ d p s => variant_to_enum_sz tag_width p d s
+  | OpPayloadToUnion _ d p s => payload_to_union_sz p d s
+  | _ => footprint tag_width o
+  end.
+
+(* what remains over-wide with both fixes: the stack memset and the ABI cast words *)
+Definition known_class_sz (o : op) : option N :=
+  match o with
+  | OpMemset _ true | OpCastStore _ _ => known_class 1 o
+  | _ => None
+  end.
+
+Lemma hi_write_all_sz t s : wf_vlay t -> hi (write_all_sz t s) = if v_agg t then v_size t else v_bytes t.
+Proof.
+  intros (H1 & H2 & H3). unfold write_all_sz.
+  destruct (v_agg t); [| cbn; lia].
+  destruct s; [apply narrow_loops_hi; lia |].
+  destruct (v_size t =? 0) eqn:E; [apply N.eqb_eq in E; rewrite E; reflexivity | cbn; lia].
+Qed.
+
+Lemma hi_payload_sz p s d : wf_payload p d ->
+  hi (match p with Some t => write_all_sz t s | None => [] end)
+  = match p with Some t => v_size t | None => 0 end.
+Proof.
+  destruct p as [t |]; [| reflexivity]. intros [W L]. rewrite hi_write_all_sz by auto.
+  destruct W as (_ & _ & B). destruct (v_agg t); auto.
+Qed.
+
+(* with the tag stored as one byte and aggregates copied by size, every copy, every
+   variant->enum, payload->optional / error-union conversion and every nil store stays
+   inside its destination, for all layouts *)
+Theorem except_known_sz o :
+  wf_op o -> known_class_sz o = None -> within (dest_size o) (footprint_sz 1 o) = true.
+Proof.
+  destruct o as [size t s | size d p s | size d p s | size d nz | t s | size ws | sz];
+    cbn [wf_op known_class_sz footprint_sz dest_size]; intros W K.
+  - rewrite within_hi. apply N.leb_le. destruct W as [W ->]. rewrite hi_write_all_sz by auto.
+    destruct W as (H1 & H2 & H3). destruct (v_agg t); [lia | rewrite H3 by auto; lia].
+  - rewrite within_hi. apply N.leb_le. destruct W as [D WP].
+    unfold variant_to_enum_sz, write_val. rewrite hi_app, (hi_payload_sz p s d WP). cbn [hi fold_right].
+    destruct p as [t |]; [destruct WP as [_ L]; lia | lia].
+  - rewrite within_hi. apply N.leb_le. destruct W as [D WP].
+    unfold payload_to_union_sz, write_val. rewrite hi_app, (hi_payload_sz p s d WP). cbn [hi fold_right].
+    destruct p as [t |]; [destruct WP as [_ L]; lia | lia].
+  - apply (except_known 1 (OpNil size d nz)); auto.
+  - apply (except_known 1 (OpMemset t s)); auto. destruct s; auto.
+  - apply (except_known 1 (OpCastStore size ws)); auto.
+  - apply (except_known 1 (OpByvalCopy sz)); auto.
+Qed.
+
+(* in particular the three recorded classes 1-3 are gone *)
+Corollary copies_within_sz :
+  (forall size t s, wf_op (OpCopy size t s) -> within size (footprint_sz 1 (OpCopy size t s)) = true) /\
+  (forall size d p s, wf_op (OpVariantToEnum size d p s) ->
+     within size (footprint_sz 1 (OpVariantToEnum size d p s)) = true) /\
+  (forall size d p s, wf_op (OpPayloadToUnion size d p s) ->
+     within size (footprint_sz 1 (OpPayloadToUnion size d p s)) = true).
+Proof.
+  repeat split; intros; apply (except_known_sz _ H); reflexivity.
+Qed.
